@@ -1,7 +1,7 @@
 #!/bin/bash
 # usage: tools_seed.sh <id> <PROP> <src-dir with patch.diff demo_test.go notes.md> <demo pkg dir rel> <test regex> [race]
 # 1. confirms in a scratch worktree: demo fails with the patch, passes without, baseline passes with it
-# 2. runs ./check PROP quick with the patch applied to /repo (reverted afterwards)
+# 2. runs ./check PROP quick against a scratch worktree with the patch (VERIF_REPO), outputs to a scratch dir (VERIF_SCRATCH)
 # 3. files everything under /verif/seeded/<id>/
 set -u
 ID=$1; PROP=$2; SRC=$3; PKG=$4; RE=$5; RACE=${6:-}
@@ -19,11 +19,12 @@ rm $WT/$PKG/zz_seed_demo_test.go
 BL=$(python3 /verif/tools_baseline.py $WT | head -1)
 git -C /repo worktree remove --force $WT
 echo "demo without patch rc=$WO (want 0); with patch rc=$WI (want !=0); baseline with patch: $BL"
-M=/tmp/repo_mut
-git -C /repo worktree remove --force $M 2>/dev/null; git -C /repo worktree prune
-git -C /repo worktree add -q $M HEAD && git -C $M apply $SRC/patch.diff
-rm -rf /tmp/evidence.bak && cp -r /verif/evidence /tmp/evidence.bak; cd /verif && VERIF_REPO=$M ./check $PROP quick > /tmp/seed-$ID-check.txt 2>&1; RC=$?
-git -C /repo worktree remove --force $M; rm -rf /verif/evidence && mv /tmp/evidence.bak /verif/evidence
+M=$(mktemp -d /tmp/repo_mut.XXXXXX); rmdir $M
+S=$(mktemp -d /tmp/vscr.XXXXXX)
+git -C /repo worktree prune
+git -C /repo worktree add -q --detach $M HEAD && git -C $M apply $SRC/patch.diff
+cd /verif && VERIF_REPO=$M VERIF_SCRATCH=$S ./check $PROP quick > /tmp/seed-$ID-check.txt 2>&1; RC=$?
+git -C /repo worktree remove --force $M; rm -rf $S
 grep -E "SUMMARY|VIOLATION|signature|INFRA" /tmp/seed-$ID-check.txt | cut -c1-220
 echo "check rc=$RC"
 mkdir -p /verif/seeded/$ID
@@ -37,4 +38,3 @@ meta={"id":"$ID","property":"$PROP","source":"independent sub-agent given only t
  "detected": $RC==1}
 json.dump(meta,open("/verif/seeded/$ID/meta.json","w"),indent=1)
 PY
-rm -f /verif/replays/*.json
